@@ -111,7 +111,7 @@ CHECKS = {
             {"pkg": "Havoc/pkg/profile/yaotl/hclsyntax", "entries": ["H_c17_mutate"], "shards": 8, "shards_thorough": 24, "allow_abandon": ["symbolic int -> float conversion"], "flags": ["-tags", "nohint", "-init", "Havoc/pkg/profile/yaotl,golang.org/x/text/unicode/norm,github.com/zclconf/go-cty/...,math/big,github.com/agext/levenshtein"]},
             {"pkg": "Havoc/pkg/profile/yaotl/hclsyntax", "entries": ["H_c17_parse"], "shards": 16, "flags": ["-init", "Havoc/pkg/profile/yaotl,golang.org/x/text/unicode/norm,github.com/zclconf/go-cty/...,math/big,github.com/agext/levenshtein"]},
         ],
-        "bounds": "JSON scanner: every byte string of length 0..3; JSON parser (json.Parse): every byte string of length 0..2 (thorough 0..3) and every single-byte mutation of a 52-byte document with strings, numbers, keywords, arrays and nested objects - returns with a body and/or diagnostics, ranges inside the input, error-free documents read as attributes and evaluate; string-literal sub-lexer (scanStringLit, quoted and unquoted): every byte string of length 0..4; native-syntax scanner (the Ragel machine of scan_tokens.go, modes normal/template/ident-only): every byte string of length 0..2 (thorough: 0..3): token order, coverage, bytes, end-of-file token, positions; the four parser entry points ParseConfig/ParseExpression/ParseTemplate/ParseTraversalAbs: every byte string of length 0..2 (thorough: 0..3): no panic, termination, node and diagnostic ranges inside the input, children inside parents, error-free inputs evaluate (nil context) without panicking; single-fault mutations: every byte value at every position of 2 (thorough: 6) well-formed sources of 40..60 bytes covering blocks, labels, nested blocks, lists, objects, templates with interpolation/if/for directives, heredocs (LF and CRLF), for-expressions, function calls with expansion, conditionals, splats, indexing, operators - scanner and ParseConfig with the same obligations; grapheme segmentation by contract.",
+        "bounds": "JSON scanner: every byte string of length 0..3; JSON parser (json.Parse): every byte string of length 0..2 (thorough 0..3) and every single-byte mutation of a 52-byte document with strings, numbers, keywords, arrays and nested objects - returns with a body and/or diagnostics, ranges inside the input, error-free documents read as attributes and evaluate; string-literal sub-lexer (scanStringLit, quoted and unquoted): every byte string of length 0..4; native-syntax scanner (the Ragel machine of scan_tokens.go, modes normal/template/ident-only): every byte string of length 0..2 (thorough: 0..3): token order, coverage, bytes, end-of-file token, positions; the four parser entry points ParseConfig/ParseExpression/ParseTemplate/ParseTraversalAbs: every byte string of length 0..2 (3-byte inputs were tried in the thorough tier: 6 of 16 slices did not finish within 2 hours each, so they are not claimed): no panic, termination, node and diagnostic ranges inside the input, children inside parents, error-free inputs evaluate (nil context) without panicking; single-fault mutations: every byte value at every position of 2 (thorough: 6) well-formed sources of 40..60 bytes covering blocks, labels, nested blocks, lists, objects, templates with interpolation/if/for directives, heredocs (LF and CRLF), for-expressions, function calls with expansion, conditionals, splats, indexing, operators - scanner and ParseConfig with the same obligations; grapheme segmentation by contract.",
         "outside": "inputs longer than the bounds other than single-byte mutations of the listed sources; gohcl decoding of error-free input (reflection); encoding/json.Unmarshal inside the JSON parser is over-approximated (may reject any token; string escapes not decoded); did-you-mean hints in diagnostic text (stubbed: edit distance over symbolic names forks per character pair); grapheme cluster segmentation (contract stub: some prefix of 1..n bytes); number literals whose digits are symbolic reach math/big float formatting (paths abandoned and counted)",
         "min_completed": 3,
     },
